@@ -186,3 +186,36 @@ pub fn corpora_boundary(n: usize) -> Vec<Corpus> {
     ];
     all.into_iter().take(n).collect()
 }
+
+/// Systematic tagged corpora: token "a" occurs `occ` times (one sentence "a/<tags> b" each, plus a
+/// tag-free filler sentence), every slot of every occurrence is absent / "X" / "Y": all
+/// 3^(slots*occ) tag matrices. Covers constant-then-varying slots, holes, all-absent rows, etc.
+pub fn tag_matrix_corpora(slots: usize, occ: usize, step: usize) -> Vec<Corpus> {
+    let mut out = vec![];
+    let total = 3usize.pow((slots * occ) as u32);
+    for m in (0..total).step_by(step.max(1)) {
+        let mut x = m;
+        let mut lines = vec![];
+        let mut name = String::new();
+        for _ in 0..occ {
+            let mut tok = String::from("a");
+            let mut cells = vec![];
+            for _ in 0..slots {
+                cells.push(x % 3);
+                x /= 3;
+            }
+            // trailing absent tags are simply not written
+            let upto = cells.iter().rposition(|&c| c != 0).map_or(0, |p| p + 1);
+            for &c in &cells[..upto] {
+                tok.push('/');
+                tok.push_str(["", "X", "Y"][c]);
+            }
+            name.push_str(&tok);
+            name.push(' ');
+            lines.push((false, format!("{tok} b")));
+        }
+        lines.push((false, "cd c d dc".to_string()));
+        out.push(Corpus { name: format!("matrix[{}]", name.trim_end()), lines, tag_dict: vec![] });
+    }
+    out
+}
